@@ -785,6 +785,7 @@ func scenario(cfg Cfg, nOps int) {
 	if !accepted {
 		rt.Assert(Failed(res), "C04: a transaction that would leave a dangling strong reference, or a weak column below its minimum, is rejected")
 		rt.Assert(before.Matches(db), "C04: a rejected transaction changes nothing")
+		rt.Assert(before.RefIndexMatches(db), "C04: a rejected transaction leaves the committed reference index as it was")
 		return
 	}
 	rt.Assert(!Failed(res), "C04: a transaction whose outcome satisfies referential integrity is accepted")
